@@ -71,9 +71,15 @@ def run(C, R):
     for cfg in C.configs():
         F = C.facts(cfg)
         R.configs.append(cfg)
+        # the functions whose CALLS the schemas speak about stay opaque; any other function of the two modules
+        # (a private helper somebody extracted) is inlined into its caller, so that moving code around is invisible
+        SCHEMA_FNS = ('safe_lesser', 'meld', 'maybe_meld', 'add_child', 'merge_children', 'last_child', 'unlink_prev',
+                      'add_front', 'remove', 'remove_first', 'remove_last', 'drain', 'reverse_drain', 'insert',
+                      'peek_min', 'peek_first', 'peek_last', 'peek_first_mut', 'peek_last_mut', 'is_empty', 'new')
         E = Engine(F, inline_filter=lambda ci, callee: not (
             callee['path'].startswith('intrusive_pairing_heap::') or callee['path'].startswith('intrusive_double_linked_list::'))
-            or callee['path'].endswith(('::deref', '::deref_mut')) or callee.get('name') in ('is_root',))
+            or callee['path'].endswith(('::deref', '::deref_mut')) or callee.get('name') in ('is_root',)
+            or callee.get('name') not in SCHEMA_FNS, inline_queue_helpers=True)
 
         def one(path_suffix):
             r = [f for p, f in F.fns.items() if p.endswith(path_suffix)]
@@ -164,8 +170,8 @@ def run(C, R):
             nx = var(E, path, I(NODE + ('next',)))
             if path.ret == ('const', 0):
                 nnon += 1
-                ishead = const_of(E, path.facts, ('bin', 'Ne', I(SELF + ('head',)), some(('ref', NODE))))
-                report('C20.R4', fn, path, pv == 'None' and ishead == 1 and not writes(path),
+                nothead = _eq_ptr(E, path.facts, I(SELF + ('head',)), NODE)
+                report('C20.R4', fn, path, pv == 'None' and nothead == 0 and not writes(path),
                        'non-member (prev == None and head != node): false, no write')
                 continue
             ok = path.ret == ('const', 1)
@@ -280,6 +286,11 @@ def run(C, R):
                 ml = [e for e in path.events if e['k'] == 'call' and e['name'] == 'meld']
                 ok = v == 'Some' and len(ml) == 1 and ml[0]['args'] == (inner(r0), ('ref', NODE)) and \
                     fin(path, SELF + ('root',)) == some(ml[0]['ret'])
+            # the same through the (schema-checked) helper: root := Some(maybe_meld(root, node))
+            mm = [e for e in path.events if e['k'] == 'call' and e['name'] == 'maybe_meld']
+            if not ok and len(mm) == 1 and mm[0]['args'] == (r0, ('ref', NODE)) and \
+                    fin(path, SELF + ('root',)) == some(mm[0]['ret']):
+                ok = True
             report('C20.R3', fn, path, ok, 'insert: root := node if empty, else meld(root, node)')
         fn = one('PairingHeap::<T>::peek_min')
         for path in E.run(fn['path']):
@@ -351,7 +362,28 @@ def run(C, R):
             nmc += 1
             calls = [e for e in path.events if e['k'] == 'call' and e.get('mode') == 'opaque'
                      and e['callee'].startswith('intrusive_pairing_heap::')]
-            ok = bool(calls) and calls[0]['name'] == 'last_child' and calls[0]['args'] == (('param', 'first_child'),)
+            if calls and calls[0]['name'] == 'last_child':
+                ok = calls[0]['args'] == (('param', 'first_child'),)
+            else:
+                # last_child inlined: the first node that is processed must be reached from first_child by following
+                # `next` until it is None
+                firstp = [c for c in calls if c['name'] in ('unlink_prev', 'meld', 'maybe_meld')]
+                start = None
+                if firstp:
+                    a = firstp[0]['args']
+                    start = a[0] if firstp[0]['name'] == 'unlink_prev' else a[-1]
+                cur = ('param', 'first_child')
+                ok = start is not None
+                for _i in range(8):
+                    nxt = I(D(cur) + ('next',))
+                    v = var(E, path, nxt)
+                    if v == 'Some':
+                        cur = inner(nxt)
+                        continue
+                    ok = ok and v == 'None' and cur == start
+                    break
+                else:
+                    ok = False
             melds = [e for e in calls if e['name'] in ('meld', 'maybe_meld')]
             ok = ok and melds and path.ret == melds[-1]['ret']
             # every node handed to meld had its parent link cleared first
@@ -524,6 +556,7 @@ def inconsistency_witness(E, path, fn_name):
     return None
 
 
+OPTIONAL_HELPERS = ('last_child', 'maybe_meld', 'unlink_prev')
 ASSERTING = (('LinkedList::<T>::add_front', 'LinkedList::add_front'), ('LinkedList::<T>::remove_first', 'LinkedList::remove_first'),
              ('LinkedList::<T>::remove_last', 'LinkedList::remove_last'), ('LinkedList::<T>::is_empty', 'LinkedList::is_empty'),
              ('LinkedList::<T>::remove', 'LinkedList::remove'), ('PairingHeap::<T>::insert', 'PairingHeap::insert'),
@@ -536,6 +569,8 @@ ASSERTING = (('LinkedList::<T>::add_front', 'LinkedList::add_front'), ('LinkedLi
 def assertion_rule(R, E, F, one, cfg):
     n = 0
     for suffix, short in ASSERTING:
+        if short in OPTIONAL_HELPERS and not [1 for p in F.fns if p.endswith(suffix)]:
+            continue   # a private helper that was inlined into its caller
         fn = one(suffix)
         paths = E.run(fn['path'])
         if not any(p.exit == 'return' for p in paths):
@@ -598,6 +633,9 @@ def extra_schemas(R, E, F, one, report, fin, cfg):
             ok = lv == 'Some' and len(ml) == 1 and ml[0]['args'] == (inner(L), ('param', 'right')) and path.ret == ml[0]['ret']
         report('C20.R3', fn, path, ok, 'maybe_meld(None, r) == r; maybe_meld(Some(l), r) == meld(l, r)')
     # last_child walks the sibling list via next and returns the node whose next is None
+    if not [1 for p in F.fns if p.endswith('intrusive_pairing_heap::last_child')]:
+        R.observe('C20: last_child() does not exist as a function of its own (inlined into its caller)')
+        return
     fn = one('intrusive_pairing_heap::last_child')
     seen_steps = set()
     for path in E.run(fn['path']):
